@@ -66,23 +66,21 @@ structure Config where
   batchDisabled : Bool := false
   /-- `isBatch` peeks through a `bufio.Reader` of `bufferSize` = 128 bytes: `Peek(n)` fails for
   n > 128, so the first non-blank byte is only seen when fewer than 128 blanks precede it.
-  `none` = no limit (proposed fix C11-batch-after-blanks). -/
-  peekLimit : Option Nat := some 128
+  `none` = no limit (since fix 4590891: `isBatch` consumes the blanks instead of peeking past them). -/
+  peekLimit : Option Nat := none
   /-- `true` (since fix 6b06fc7): an untyped nil result is written as `"result":null`.
   `false` (pinned commit): the `omitempty` tag drops it and the response has no `result`. -/
   nullForNilResult : Bool := true
   /-- `true` (since fix 16a67e4): a request without id whose method is unknown or whose params
   do not bind gets no reply. `false` (pinned commit): it is answered with an error, id null. -/
   silentNotificationErrors : Bool := true
-  /-- `false` (current code): a handler that panics or returns something `json.Marshal` rejects
-  costs the response (see `handleInputF`). `true` (proposed fix C11-handler-failure): such a
-  request is answered with -32603 Internal error. -/
-  internalErrorOnHandlerFailure : Bool := false
-  /-- `false` (current code): an Invalid Request answer (wrong version, no method, bad params)
-  echoes the request's `id` whatever its type — also an array, an object, a boolean, a fractional
-  number. `true` (proposed fix C11-invalid-request-id): only a string or a number is echoed,
-  anything else becomes Null. -/
-  legalIdEchoOnly : Bool := false
+  /-- `true` (since fix 6442b48): a handler that panics or returns something `json.Marshal` rejects
+  is answered with -32603 Internal error. `false` (before): it costs the response (see `handleInputF`). -/
+  internalErrorOnHandlerFailure : Bool := true
+  /-- `true` (since fix dfb1bec): an Invalid Request answer (wrong version, no method, bad params)
+  echoes the request's `id` only if it is a string or a number, anything else becomes Null.
+  `false` (before): the id is echoed whatever its type — also an array, an object, a boolean. -/
+  legalIdEchoOnly : Bool := true
   deriving Repr, DecidableEq
 
 /-- The server as it is in the current tree (the harness probes the real server and refuses to
@@ -90,8 +88,10 @@ run the correspondence under any other value of the two repaired switches). -/
 def junoCfg : Config := {}
 
 /-- The server at the pinned commit 0308209, before the fixes 6b06fc7 and 16a67e4 (kept for the
-regression witnesses in Props.lean). -/
-def pinnedCfg : Config := { nullForNilResult := false, silentNotificationErrors := false }
+regression witnesses in Props.lean; also before dfb1bec, 6442b48, 4590891). -/
+def pinnedCfg : Config :=
+  { nullForNilResult := false, silentNotificationErrors := false, peekLimit := some 128,
+    internalErrorOnHandlerFailure := false, legalIdEchoOnly := false }
 
 /-! ## Request decoding (what `json.Decoder.Decode(*Request)` does) -/
 
